@@ -1133,11 +1133,44 @@ fn flat_tokens(lib: &LefLibrary, devs: &[Dev]) -> Vec<Tok> {
 
 /// Render `lib` with the given lexical deviations.
 pub fn render(lib: &LefLibrary, devs: &[Dev]) -> Rendered {
+    render_omit(lib, devs, &[])
+}
+
+/// Token indices of `ITERATE` and `DO .. STEP sx sy` inside POLYGON / PATH statements.
+pub fn iterate_tokens_of_polygon_and_path(toks: &[Tok]) -> Vec<usize> {
+    let mut out = vec![];
+    let mut i = 0;
+    while i < toks.len() {
+        if toks[i].nl && toks[i].k == TK::Key && (toks[i].s == "POLYGON" || toks[i].s == "PATH") {
+            let mut j = i;
+            while j < toks.len() && toks[j].k != TK::Semi {
+                j += 1;
+            }
+            if let Some(it) = (i..j).find(|&x| toks[x].k == TK::Key && toks[x].s == "ITERATE") {
+                out.push(it);
+                if let Some(d) = (it..j).find(|&x| toks[x].k == TK::Key && toks[x].s == "DO") {
+                    out.extend(d..j);
+                }
+            }
+            i = j;
+        }
+        i += 1;
+    }
+    out
+}
+
+/// As `render`, leaving out the tokens with the given indices (token numbering of `devs` is unchanged).
+/// `toks` / `spelled` of the result still list every token.
+pub fn render_omit(lib: &LefLibrary, devs: &[Dev], omit: &[usize]) -> Rendered {
     let toks = flat_tokens(lib, devs);
     let all_case = devs.iter().find_map(|d| if let Dev::AllCase(m) = d { Some(*m) } else { None }).unwrap_or(0);
     let mut text = String::new();
     let mut spelled = Vec::with_capacity(toks.len());
     for at in 0..=toks.len() {
+        if omit.contains(&at) {
+            spelled.push(String::new());
+            continue;
+        }
         let gap = devs
             .iter()
             .find_map(|d| match d {
